@@ -7,8 +7,8 @@ from framework import REPO
 from props import e1util
 from props.e1util import unhex
 
-TIE = ["Nsq.Tie.Wire"]
-PROPS = ["Nsq.Props.C07", "Nsq.Props.C07Path"]
+TIE = ["Nsq.Tie.Wire", "Nsq.Tie.WireFn"]
+PROPS = ["Nsq.Props.C07", "Nsq.Props.C07Path", "Nsq.Props.C07Fn"]
 
 
 def run(ctx):
@@ -42,6 +42,7 @@ def run(ctx):
                 "{plain,TLS}x{none,snappy,deflate l}x{buffer size}x{buffer timeout}, REQ, two channels, restart; "
                 "a case is distinct by its operation line; non-trivial = not an error answer")
     gen_ok, _ = ctx.gen("e1_codec")
+    ctx.gen("e1_bytes")   # translated WriteTo / decodeMessage / SendFramedResponse / SendResponse / readLen (kind bytes)
     ok, log = ctx.lean_build(TIE + PROPS)
     if not ok:
         ctx.lean_obligation_failed("lake build " + " ".join(TIE + PROPS), log[-1500:])
